@@ -465,3 +465,57 @@ def r08c(ctx, rep):
                                      "Number %s Number delegates to &Number %s &Number" % (op, op) if ok else
                                      "the owned %s impl no longer delegates to the &Number impl: two tables to keep in step" % op,
                                      [owned.span])
+
+
+def r08d(ctx, rep):
+    from ..flow import Labels, places_read
+    facts = ctx["facts"]
+    rep.rule("R08d", "every arm computes from both operands: in each representation-pair arm of the binary operators the "
+             "value returned (unless it is None / an error) is data-dependent on both the left and the right operand "
+             "(def-use closure from the matched payloads to the return place). An arm that returns a constant, or ignores "
+             "one operand, gives an answer that depends on which representation carried the operand.")
+    n = 0
+    for name, path in BINOPS.items():
+        fn = facts.fn(path)
+        if fn is None:
+            rep.anchor_lost("R08d", path)
+            continue
+        lab = Labels(fn, init={1: {"L"}, 2: {"R"}})
+        arms = number_arms(facts, fn)
+        for (x, y), reg in sorted(arms.items(), key=lambda kv: kv[0]):
+            if y in ("_", "*"):
+                continue
+            rets = []
+            for bb in reg:
+                b = fn.blocks[bb]
+                for s in b["stmts"]:
+                    if s["lhs"]["l"] == 0 and not s["lhs"]["p"]:
+                        rv = s["rv"]
+                        if rv["k"] == "agg" and rv.get("variant") == "None":
+                            rets.append(("none", set(), s["loc"]))
+                            continue
+                        ls = set()
+                        for p in places_read(rv):
+                            ls |= lab.of_place(p)
+                        rets.append(("val", ls, s["loc"]))
+                t = b["term"]
+                if t["k"] == "call" and t["dest"]["l"] == 0 and not t["dest"]["p"]:
+                    ls = set()
+                    for a in lab.call_arg_labels(t, bb):
+                        ls |= a
+                    # closures capture operands: `.map(|lhs| (lhs / rhs).trunc().into())`
+                    rets.append(("val", ls, t["loc"]))
+            vals = [r for r in rets if r[0] == "val"]
+            if not vals:
+                continue
+            n += 1
+            key = "R08d|%s|%s,%s" % (name, x, y)
+            bad = [r for r in vals if not {"L", "R"} <= r[1]]
+            if bad:
+                missing = sorted({"L", "R"} - bad[0][1])
+                rep.fail("R08d", key, "%s(%s, %s) returns a value that does not depend on the %s operand: the answer is a "
+                         "constant of the representation pair, not of the numbers" % (
+                             name, x, y, " and ".join("left" if m == "L" else "right" for m in missing)), [r[2] for r in bad])
+            else:
+                rep.ok("R08d", key, "%s(%s, %s): the result depends on both operands" % (name, x, y), [vals[0][2]])
+    rep.floor("R08d", "value-returning arms of the binary operators", n, 80)
